@@ -530,7 +530,7 @@ func runC04(cx *Ctx, r *Report) {
 		}
 	}
 	// who may write the supply prefix
-	for _, name := range []string{"CreateHTLC", "ClaimHTLC", "BeginBlock"} {
+	for _, name := range sortedKeys(per) {
 		for _, x := range per[name] {
 			if x.ev.Kind != "store.set" || !hasPrefix(x.ev, htlcSup) {
 				continue
@@ -546,9 +546,17 @@ func runC04(cx *Ctx, r *Report) {
 					why = "next to " + y.ev.Kind
 				}
 			}
-			if !ok && name == "BeginBlock" && strings.Contains(x.ev.Args[1].LooseString(), "math.ZeroInt()") {
-				ok = true
-				why = "initialisation of a new asset's counters with zero"
+			if !ok && strings.Contains(x.ev.Args[1].LooseString(), "math.ZeroInt()") {
+				// a fresh all-zero record may only be written where none exists for the denom:
+				// anywhere else it wipes the counters of open transfers and minted coins
+				_, kargs := callArgsOf(x.ev.Args[0])
+				if len(kargs) > 0 && cx.absenceFact(x.w.FactsAt(x.ev.Fr, x.ev.Site), htlcSup, kargs[len(kargs)-1]) {
+					ok = true
+					why = "initialisation of a new asset's counters with zero, under the fact that no supply record exists for that denom"
+				} else {
+					r.violate("supply-writers", kc.next(name+"|0x03"), x.ev.Pos(cx), "an all-zero supply record is written in "+name+" on chain "+x.ev.Fr.String()+" without the fact that no record exists for the denom: the recorded incoming / outgoing / current supply of an asset with open transfers or minted coins is wiped")
+					continue
+				}
 			}
 			r.check(ok, "supply-writers", kc.next(name+"|0x03"), x.ev.Pos(cx), "supply record written "+why, "supply record written on chain "+x.ev.Fr.String()+" without a recognised counter update")
 		}
